@@ -21,6 +21,7 @@ from simworld import prng
 TABLE = json.load(open(os.path.join(common.VERIF, "tables", "leading_zero_ephemerals.json")))
 POS = tuple(TABLE["position"])
 SID = TABLE["sid"]
+SID2 = "S-1-5-21-11-22-33-513"
 FT = gkdi.interval_start_filetime(*POS) + 77
 
 
@@ -67,8 +68,15 @@ def base_plan(rkspec, seed: int, mode: str, fl_p: str, fl_u: str, script=None) -
     else:
         ops.append({"op": "identity", "sids": [SID]})
         ops.append({"op": "protect", "fl": fl_p, "sid": SID, "rk": None, "net": "online", "data": 19, "cache": "fresh"})
-    ops.append({"op": "identity", "sids": [SID]})
-    ops.append({"op": "unprotect", "fl": fl_u, "net": "online", "blob": {"from_op": 1}, "cache": "fresh"})
+    if mode == "pub" and seed % 3 == 0 and not script:
+        # a second SID protected at the same key position in the same process (decrypt side then runs twice for one position)
+        ops.append({"op": "protect", "fl": fl_p, "sid": SID2, "rk": None, "net": "online", "data": 19, "cache": "fresh"})
+        ops.append({"op": "identity", "sids": [SID, SID2]})
+        ops.append({"op": "unprotect", "fl": fl_u, "net": "online", "blob": {"from_op": 1}, "cache": "fresh"})
+        ops.append({"op": "unprotect", "fl": fl_u, "net": "online", "blob": {"from_op": 2}, "cache": "fresh"})
+    else:
+        ops.append({"op": "identity", "sids": [SID]})
+        ops.append({"op": "unprotect", "fl": fl_u, "net": "online", "blob": {"from_op": 1}, "cache": "fresh"})
     return {"seed": seed, "clock_ft": FT, "root_keys": [rkspec], "caller_sids": [], "ctx": {"kind": "stub", "legs": 2, "sig": 16},
             "ops": ops, "entropy_script": script or [], "mode": mode}
 
@@ -80,13 +88,25 @@ def lz(b: bytes) -> int:
 def judge(plan, tr: P.Trace):
     probes: t.Dict[str, int] = {}
     rk = tr.root_keys[0]
-    prot, unp = tr.ops[1], tr.ops[3]
+    prots = [ot for ot in tr.ops if ot.op["op"] == "protect"]
+    unps = [ot for ot in tr.ops if ot.op["op"] == "unprotect"]
+    if len(prots) > 1:
+        probes["two_sids_same_position"] = 1
+    for prot, unp in zip(prots, unps):
+        v = _judge_pair(plan, tr, rk, prot, unp, probes)
+        if v:
+            return v, probes
+    return None, probes
+
+
+def _judge_pair(plan, tr, rk, prot, unp, probes):
+    sid = prot.op["sid"]
     what = f"{rk.hash_name}/{rk.secret_alg}/{plan['mode']}"
     if tr.dc.all_violations:
-        return common.violation("C03", "dc-rejected", "", "", "", "", str(tr.dc.all_violations[:2])), probes
+        return common.violation("C03", "dc-rejected", "", "", "", "", str(tr.dc.all_violations[:2]))
     if prot.outcome.kind != "ok":
         et, frame = drive.exc_sig(prot.outcome)
-        return common.violation("C03", "encrypt-side", prot.op["fl"], et, frame, plan["mode"], f"protect failed for {what}: {prot.outcome.exc!r}"), probes
+        return common.violation("C03", "encrypt-side", prot.op["fl"], et, frame, plan["mode"], f"protect failed for {what}: {prot.outcome.exc!r}")
     if plan["entropy_script"] and not getattr(tr.world.entropy, "scripted_used", 0):
         probes["script_not_consumed"] = 1
     p = cms.parse_blob(prot.outcome.value)
@@ -96,13 +116,13 @@ def judge(plan, tr: P.Trace):
     ki = kid["key_info"]
     # measure the leading-zero condition with the reference arithmetic
     if plan["mode"] == "pub":
-        chain = cms.chain_for(rk, dtyp.target_sd(SID), kid["l0"])
+        chain = cms.chain_for(rk, dtyp.target_sd(sid), kid["l0"])
         l2 = chain.l2_seed(kid["l1"], kid["l2"])
         priv = int.from_bytes(gkdi.group_private_key(rk.hash_name, l2, rk.secret_alg, rk.private_key_length), "big")
         try:
             z, _h = gkdi.shared_secret(rk.secret_alg, priv, ki)
         except Exception as e:  # noqa: BLE001
-            return common.violation("C03", "encrypt-side", prot.op["fl"], "bad-ephemeral-public", "", rk.secret_alg, f"reference cannot use the ephemeral public key in the blob: {e!r}"), probes
+            return common.violation("C03", "encrypt-side", prot.op["fl"], "bad-ephemeral-public", "", rk.secret_alg, f"reference cannot use the ephemeral public key in the blob: {e!r}")
         if lz(z):
             probes["lz_shared_secret"] = 1
         if rk.secret_alg == "DH":
@@ -126,15 +146,15 @@ def judge(plan, tr: P.Trace):
         pt, cek, kek = cms.unprotect_parsed(p, rk)
     except Exception as e:  # noqa: BLE001
         return common.violation("C03", "independent-kek", prot.op["fl"], type(e).__name__, "", f"{rk.secret_alg}/{cond}",
-                                f"{what}: the KEK computed by the independent implementation does not unwrap the CEK the library wrapped ({e!r}); key_info={ki.hex()[:40]}..."), probes
+                                f"{what}: the KEK computed by the independent implementation does not unwrap the CEK the library wrapped ({e!r}); key_info={ki.hex()[:40]}...")
     if pt != prot.plaintext:
-        return common.violation("C03", "independent-kek", prot.op["fl"], "plaintext", "", cond, f"{what}: reference decrypts to other bytes"), probes
+        return common.violation("C03", "independent-kek", prot.op["fl"], "plaintext", "", cond, f"{what}: reference decrypts to other bytes")
     if unp.outcome.kind != "ok" or unp.outcome.value != prot.plaintext:
         et, frame = drive.exc_sig(unp.outcome)
         return common.violation("C03", "decrypt-side", unp.op["fl"], et if unp.outcome.kind != "ok" else "plaintext", frame, f"{rk.secret_alg}/{cond}",
-                                f"{what}: library decrypt side disagrees with its own encrypt side: {unp.outcome.exc!r}"), probes
+                                f"{what}: library decrypt side disagrees with its own encrypt side: {unp.outcome.exc!r}")
     probes["agree_" + rk.secret_alg + "_" + plan["mode"]] = 1
-    return None, probes
+    return None
 
 
 class C03(common.Check):
@@ -149,7 +169,7 @@ class C03(common.Check):
     components = {"client": "real (new_kek / get_kek / compute_kek / compute_public_key through the public API)", "entropy": "simulated, scripted draws",
                   "DC": "model (RefDC, public-key and seed replies)", "independent implementation": "ref.gkdi + ref.ec (own P-256/P-384 arithmetic, pow() DH, hashlib KDFs)"}
     assumptions = ["reference calibrated on the 16 Windows blobs (gate before every run)", "hash x algorithm sweep is workload parameterisation"]
-    required_fired = ("key_length_wider_than_modulus", "lz_shared_secret", "lz_public_value", "lz_coord_x", "lz_coord_y", "lz_nonce", "agree_DH_pub", "agree_ECDH_P256_pub", "agree_ECDH_P384_pub", "agree_DH_nonce")
+    required_fired = ("two_sids_same_position", "key_length_wider_than_modulus", "lz_shared_secret", "lz_public_value", "lz_coord_x", "lz_coord_y", "lz_nonce", "agree_DH_pub", "agree_ECDH_P256_pub", "agree_ECDH_P384_pub", "agree_DH_nonce")
 
     def cases(self, tier, seed):
         rng = prng.stream(seed, "C03")
@@ -167,7 +187,7 @@ class C03(common.Check):
             grp = small_group(kl, i % 40)
             if i % 3 == 0:
                 grp = [grp[0] + rng.choice((1, 2, 5)), grp[1], grp[2]]  # key_length padded wider than the modulus (fixed-width fields keep leading zeros)
-            priv_len = rng.choice((kl * 8, kl * 8 - 3, kl * 8 - 1, max(8, kl * 8 - 8), 9, 12))
+            priv_len = rng.choice((kl * 8, kl * 8 - 3, kl * 8 - 1, max(8, kl * 8 - 8), 9, 12, kl * 8 + 16, 512))  # also wider than the modulus
             spec = [52 + i % 3, offline.HASHES[i % 4], "DH", {"dh": grp, "priv_len": priv_len}]
             out.append(base_plan(spec, rng.getrandbits(31), "pub", rng.choice(("sync", "async")), rng.choice(("sync", "async"))))
         n_rand = 200 if tier == "quick" else 6000
